@@ -44,7 +44,7 @@ Definition mb_step (m : mbase) (te : tid * wevent) : mbase :=
   match e with
   | ECmd c =>
       mkMB ((t, c) :: b_cur m) (b_exit m)
-           (match c with CPoll => if Nat.eqb t 0 then false else b_notif m | _ => b_notif m end)
+           (match c with CPoll | CPollIf => if Nat.eqb t 0 then false else b_notif m | _ => b_notif m end)
            (b_nthr m)
   | ERet v =>
       let spawned := match get_tid t (b_cur m), v with
